@@ -220,6 +220,9 @@ pub fn c03_leaves() -> Vec<String> {
         "-9223372036854775809",
         "1e-400",
         "5e-324",
+        "3e308",
+        ALL_ESCAPES_LIT,
+        ENDS_IN_U_ESCAPE_LIT,
         "2.2250738585072009e-308",
         "1.7976931348623157e308",
         "true",
@@ -366,3 +369,80 @@ pub fn number_shape_docs() -> Vec<String> {
 
 /// containers whose emptiness is not syntactically minimal
 pub const SPACED_EMPTIES: &[&str] = &["[ ]", "{ }", "[\n]", "{\t}", "[  \r\n ]", "{ \n }"];
+
+// ------------------------------------------------------------------------------------------
+// single-byte neighbourhoods of short documents: every byte value inserted at every position and
+// substituted at every position (what counts as whitespace / structural / digit is decided per
+// byte value, often by table or bit tricks: every value is tried)
+
+pub const SHORT_SEEDS: &[&str] = &["{\"a\":[1,\"x\"],\"b\":-2.5e1}", "[true,{\"k\":null},\"s\\n\",10]", " [ 1 , \"a\" ]\n"];
+
+pub fn byte_neighbourhood_count(doc: &[u8]) -> u64 {
+    (doc.len() as u64 + 1) * 256 + doc.len() as u64 * 256
+}
+pub fn byte_neighbourhood(doc: &[u8], idx: u64) -> Vec<u8> {
+    let ins = (doc.len() as u64 + 1) * 256;
+    let mut d = doc.to_vec();
+    if idx < ins {
+        d.insert((idx / 256) as usize, (idx % 256) as u8);
+    } else {
+        let j = idx - ins;
+        d[(j / 256) as usize] = (j % 256) as u8;
+    }
+    d
+}
+
+/// number literals around the edges of the f64 range (largest finite, the first that round to
+/// infinity, the window between 2^1024 and 2^1025, far beyond; smallest subnormal, underflow)
+pub fn range_edge_numbers() -> Vec<String> {
+    let mut v = strs(&[
+        "1.7976931348623157e308",
+        "1.7976931348623158e308",
+        "1.7976931348623159e308",
+        "17976931348623159e292",
+        "1.797693134862315807e308",
+        "1.797693134862315808e308",
+        "1.8e308",
+        "2e308",
+        "3e308",
+        "3.5e308",
+        "3.59e308",
+        "3.6e308",
+        "4e308",
+        "9e308",
+        "1e309",
+        "1e400",
+        "1e4000",
+        "0.1e310",
+        "18e307",
+        "35e307",
+        "2.2250738585072014e-308",
+        "2.2250738585072011e-308",
+        "1e-308",
+        "2e-308",
+        "3e-308",
+        "0.1e-307",
+        "0.02e-306",
+        "4.9406564584124654e-324",
+        "5e-324",
+        "2.5e-324",
+        "2.4e-324",
+        "1e-324",
+        "1e-400",
+        "1e-4000",
+    ]);
+    // integers of 309 and 310 digits with every leading digit
+    for lead in 1..=9 {
+        v.push(format!("{lead}{}", "0".repeat(308)));
+        v.push(format!("{lead}7{}", "9".repeat(307)));
+        v.push(format!("{lead}{}", "0".repeat(309)));
+    }
+    let neg: Vec<String> = v.iter().map(|s| format!("-{s}")).collect();
+    v.extend(neg);
+    v
+}
+
+/// one string literal with every kind of escape the grammar has
+pub const ALL_ESCAPES_LIT: &str = "\"e\\/\\b\\f\\n\\r\\t\\\\\\\"\\u00e9\\ud83d\\ude00\"";
+/// a string that ends in a \u escape
+pub const ENDS_IN_U_ESCAPE_LIT: &str = "\"caf\\u00e9\"";
